@@ -35,6 +35,8 @@ pub struct RunSpec {
     pub timeout: Duration,
     /// keep our end of the stdin pipe open this long after all data was written (a producer that is slow to close)
     pub hold_stdin: Duration,
+    /// a producer that stalls: after this many bytes on stdin nothing is written for the given time
+    pub pause: Option<(usize, Duration)>,
 }
 
 impl RunSpec {
@@ -46,6 +48,7 @@ impl RunSpec {
             action: Action::None,
             timeout: Duration::from_secs(20),
             hold_stdin: Duration::ZERO,
+            pause: None,
         }
     }
     pub fn describe(&self) -> Value {
@@ -54,6 +57,8 @@ impl RunSpec {
             "input": match &self.input { Input::File(p) => format!("file:{}", p.display()), Input::Pipe(b, c) => format!("pipe:{} bytes chunk {}", b.len(), c), Input::None => "closed-stdin".into() },
             "env": self.env,
             "action": format!("{:?}", self.action),
+            "stdin_pause": format!("{:?}", self.pause),
+            "stdin_held_open_ms": self.hold_stdin.as_millis() as u64,
         })
     }
 }
@@ -184,8 +189,16 @@ fn run_once(bin: &Path, spec: &RunSpec) -> RunOut {
             let data = data.clone();
             let chunk = *chunk;
             let hold = spec.hold_stdin;
+            let pause = spec.pause;
             Some(std::thread::spawn(move || {
-                if chunk == 0 {
+                if let Some((n, d)) = pause {
+                    let n = n.min(data.len());
+                    if stdin.write_all(&data[..n]).is_ok() {
+                        let _ = stdin.flush();
+                        std::thread::sleep(d);
+                        let _ = stdin.write_all(&data[n..]);
+                    }
+                } else if chunk == 0 {
                     let _ = stdin.write_all(&data);
                 } else {
                     for c in data.chunks(chunk) {
